@@ -230,16 +230,27 @@ class ThreadsAdapter:
                 'pending': pend, 'hruns': dict(self.hruns),
                 'environ': dict.__contains__(sio.environ, self.eid1),
                 'sent': sent, 'open': not self.s1.closed, 'th': th,
+                'cb': _cb_count(m, self.rsid.get('c1')),
                 'runnable': [i + 1 for i in range(len(self.cfg['ops']))
                              if self.sched.threads['T%d' % (i + 1)].state
                              == 'parked']}
+
+
+def _cb_count(m, sid):
+    """What the manager keeps for the client's callbacks: outstanding
+    entries, or at least an id counter."""
+    n = len([v for v in dict.get(m.callbacks, sid, {}).values()
+             if callable(v)])
+    if n == 0 and sid in getattr(m, 'ack_counters', {}):
+        n = 1
+    return n
 
 
 ALL_LABELS = ['start', 'm.can_disconnect', 'm.is_connected',
               'm.pre_disconnect', 'eio.send', 'handler', 'm.disconnect',
               'm.get_namespaces', 'm.sid_from_eio_sid', 'environ.has',
               'environ.del']
-ASYNC_LABELS = ['start', 'eio.send', 'handler']
+ASYNC_LABELS = ['start', 'eio.send', 'eio.send_ev', 'handler']
 
 
 class _Contained(Exception):
